@@ -93,6 +93,8 @@ func runVanishHere(kind, verdict string) *vanishCase {
 	srv := lime.NewServer(cfg, &lime.EnvelopeMux{}, lime.NewBoundListener(l, addr))
 	done := make(chan error, 1)
 	go func() { done <- srv.ListenAndServe() }()
+	markIdle(1)
+	defer clearIdle()
 	ctx, cancel := context.WithTimeout(context.Background(), 5*time.Second)
 	defer cancel()
 	var t lime.Transport
@@ -133,7 +135,7 @@ func runVanishHere(kind, verdict string) *vanishCase {
 	time.Sleep(2 * time.Millisecond)
 	c.Est, c.Fin, c.AuthCalls = int(atomic.LoadInt32(&est)), int(atomic.LoadInt32(&fin)), int(atomic.LoadInt32(&calls))
 	for i := 0; i < 2000; i++ {
-		if err := srv.Close(); err == nil || err.Error() != "server not listening" {
+		if err := srv.Close(); !notServingYet(err) {
 			break
 		}
 		time.Sleep(time.Millisecond)
